@@ -180,7 +180,7 @@ def simulate(cfg_name, num, depth, seed, module="MC_Eco", timeout=900, procs=Non
 
 
 # ---------------------------------------------------------------- behaviours -> harness
-def behaviours_to_ndjson(behs, path, profiles, seed, idprefix="b", observers=None, family="eco"):
+def behaviours_to_ndjson(behs, path, profiles, seed, idprefix="b", observers=None, family="eco", probes=0):
     """behs: list of state lists (from TLC).  Writes one behaviour per line.
     observers: None | "export" (ExportImport steps sprinkled in and at the end) |
     "replica" (random restarts at block boundaries, replicas at the end)."""
@@ -208,6 +208,8 @@ def behaviours_to_ndjson(behs, path, profiles, seed, idprefix="b", observers=Non
                 steps.append({"type": "Query", "n": 16})
             b = {"id": "%s%d" % (idprefix, i), "unit": prof["unit"], "render": prof["render"], "seed": seed * 1000 + i,
                  "family": family, "steps": steps}
+            if probes and family == "eco" and not observers:
+                b["probes"] = probes
             if family == "data":
                 d0 = states[0]["dst"]
                 b["genesis"] = "default"
